@@ -6,17 +6,25 @@ import SophiaModel.Gen.CloneKind
 Line protocol for C10.  ONE LINE = ONE SELF-CONTAINED HISTORY over any number of named stores:
 
   H <op> ; <op> ; …        with <op> =
-    new <n> <LD|FD|LG|FG|TI> <16|32>     ins <n> <quad>     ens <n> <term>     rem <n> <quad>
+    new <n> <LD|FD|LG|FG|TI> <6|16|32|64> ins <n> <quad>     ens <n> <term>     rem <n> <quad>
     fill <n> <k> <off> <lit|iri|qt|lang> clone <a> <b>      cfrom <a> <b>      drop <n>
-    swap <a> <b>   mv <a> <b>   box <n>  take <a> <b>       all <n>
+    swap <a> <b>   mv <a> <b>   box <n>  take <a> <b>       all <n>            dbg <n>
+    esc <n> <x> <term>   resc <x>   desc <x>                via <own|ref>
 
-The model runs `World.step Gen.cloneKind` — `clone` is what the SOURCE defines (generated).
+(width `64`: `impl Index for usize`; width `6`: an `Index` type of the harness with `MAX = 6`, so that "index full" is reached by every
+history; `esc`: clone the term `Term::eq` to <term> that store <n> lends and keep it as <x>; `via`:
+how the harness hands terms to the stores — accessors returning owned or borrowed `MownStr`s —, the
+model merges the two branches of `ensure_owned`, see `Heap.allocTerm`.)
+
+The model runs `XWorld.step Gen.cloneKind Gen.termEscapes` (`.base op` = `World.step Gen.cloneKind`) —
+`clone` and the term type are what the SOURCE defines (generated).
 Reply: for step `k` (0-based) `k.r=<result>`, and after every step for every live store `n`
 (sorted by name): `k.A.n=<audit, run-length coded>` (`1` = key found and all pointers inside it,
 `x` = found but a pointer lies outside, `n` = no such key), `k.D.n=<0|1>` (1 = not self-contained),
 `k.C.n=<count>:<fnv1a-64 of the sorted rendering>` (content read through the heap; `DANGLING` when
 the read would touch released memory) and the oracle `o.k.C.n` (content of a plain value-semantics
-specification: a set of quads / a duplicate-free list of terms per store, `clone` = copy).
+specification: a set of quads / a duplicate-free list of terms per store, `clone` = copy); for every
+term kept by `esc`: `k.E.x=<0|1>` (1 = one of its strings points into released memory).
 -/
 namespace SophiaModel.Driver.C10
 open SophiaModel Proto Term Store Heap
@@ -95,6 +103,8 @@ def SpecStore.content (s : SpecStore) : String :=
 
 structure HState where
   w : World := {}
+  /-- terms cloned out of stores (`XWorld.esc`) -/
+  esc : List (Nat × TermRef) := []
   spec : List (Nat × SpecStore) := []
   deriving Inhabited
 
@@ -127,10 +137,19 @@ def fillTerm (mode : String) (i : Nat) : Term :=
 
 /-- one model op + the same op on the specification -/
 def apply1 (st : HState) (op : Op) (specOp : List (Nat × SpecStore) → List (Nat × SpecStore)) : HState × Res :=
-  let (w, r) := World.step Gen.cloneKind st.w op
-  if r == .bad then (st, r)
-  else if r == .panic || r == .full then ({ st with w }, r)
-  else ({ w, spec := specOp st.spec }, r)
+  match XWorld.step Gen.cloneKind Gen.termEscapes ⟨st.w, st.esc⟩ (.base op) with
+  | (xw, .res r) =>
+    if r == .bad then (st, r)
+    else if r == .panic || r == .full then ({ st with w := xw.w }, r)
+    else ({ st with w := xw.w, spec := specOp st.spec }, r)
+  | _ => (st, .bad)
+
+/-- an op of `XWorld` that leaves the specification alone -/
+def applyX (st : HState) (op : XOp) : HState × String :=
+  let (xw, r) := XWorld.step Gen.cloneKind Gen.termEscapes ⟨st.w, st.esc⟩ op
+  let rs := match r with
+    | .res r => resStr r | .escaped => "escaped" | .bounded => "bounded" | .absent => "absent" | .bad => "bad"
+  if r == .bad then (st, rs) else ({ st with w := xw.w, esc := xw.esc }, rs)
 
 def insSpec (a : Nat) (q : Quad) (sp : List (Nat × SpecStore)) : List (Nat × SpecStore) :=
   match specGet sp a with
@@ -165,7 +184,9 @@ def exec1 (st : HState) (toks : List String) : HState × String :=
       | "LD" => some Gen.genericLightDataset.shape | "FD" => some Gen.genericFastDataset.shape
       | "LG" => some Gen.genericLightGraph.shape | "FG" => some Gen.genericFastGraph.shape
       | "TI" => some tiShape | _ => none
-    let mx := match width with | "16" => some Gen.maxU16 | "32" => some Gen.maxU32 | _ => none
+    let mx := match width with
+      | "16" => some Gen.maxU16 | "32" => some Gen.maxU32 | "6" => some 6
+      | "64" => some 18446744073709551615 | _ => none
     match sh, mx with
     | some sh, some mx =>
       let a := nameId n
@@ -256,6 +277,14 @@ def exec1 (st : HState) (toks : List String) : HState × String :=
   | ["all", x] =>
     let (st', r) := apply1 st (.readAll (nameId x)) id
     (st', resStr r)
+  | ["dbg", x] => applyX st (.dbg (nameId x))
+  | "esc" :: n :: x :: rest =>
+    match Term.parseAll rest with
+    | some (t, []) => applyX st (.esc (nameId n) t (nameId x))
+    | _ => (st, "bad")
+  | ["resc", x] => applyX st (.readEsc (nameId x))
+  | ["desc", x] => applyX st (.dropEsc (nameId x))
+  | ["via", m] => if m == "own" || m == "ref" then (st, "ok") else (st, "bad")
   | _ => (st, "bad")
 
 def splitOps (toks : List String) : List (List String) :=
@@ -278,7 +307,11 @@ def report (k : Nat) (st : HState) : List String :=
        kv (pre ++ "C." ++ nm) (content st.w.heap s)] ++
       (match specGet st.spec a with
        | some sp => [kv ("o." ++ pre ++ "C." ++ nm) sp.content]
-       | none => []))
+       | none => [])) ++
+  (sortStrings (st.esc.map (fun e => nameOf e.1))).flatMap (fun nm =>
+    match (XWorld.getEsc ⟨st.w, st.esc⟩ (nameId nm)) with
+    | some e => [kvB (toString k ++ ".E." ++ nm) (dangles st.w.heap e)]
+    | none => [])
 
 def runHistory (ops : List (List String)) : String :=
   let rec go : List (List String) → Nat → HState → List String → List String
@@ -294,7 +327,8 @@ def handle (line : String) : String :=
   | "H" :: toks =>
     let ops := splitOps toks
     if ops.isEmpty then "bad-op" else runHistory ops
-  | ["kind"] => kv "clone" (match Gen.cloneKind with | .derived => "derived" | .manual => "manual")
+  | ["kind"] => kv "clone" (match Gen.cloneKind with | .derived => "derived" | .manual => "manual") ++ " " ++
+      kvB "term_escapes" Gen.termEscapes
   | _ => "bad-op"
 
 abbrev State := Unit
